@@ -1,7 +1,10 @@
 package calc
 
-// Bounded universes for the calc-graph explorations. Every key has 1-3 valid variants, `del`, and
-// (where the validators can reject anything) one variant that fails validation. Names collide on
+// Bounded universes for the calc-graph explorations. Every key has 1-4 valid variants, `del`, and
+// (where the validators can reject anything) one variant that fails validation. Every resource kind
+// for which "present but empty" differs from "missing" has an empty-but-valid variant (profile rules
+// with no rules, profile labels {}, policy without rules/types, network set without nets, tier
+// without order/default action, endpoint without labels/addresses). Names collide on
 // purpose: shared IPs, equal orders, the same selector used by two policies, own-vs-inherited label.
 
 import (
@@ -165,6 +168,8 @@ func vcUniversePol() *vcUniverse {
 		{Name: "p1rules", Key: vcProfRulesKey("p1"), Vars: []vcVariant{
 			{Name: "allow", Make: vcProfileRules([]model.Rule{{Action: "allow"}}, []model.Rule{{Action: "allow"}})},
 			{Name: "sel", Make: vcProfileRules([]model.Rule{{Action: "allow", SrcSelector: "a == '2'"}}, []model.Rule{{Action: "deny"}, {Action: "allow"}})},
+			// valid but EMPTY (the shape of the Kubernetes service-account profiles): not the same as missing
+			{Name: "empty", Make: vcProfileRules(nil, nil)},
 			{Name: "X", Invalid: true, Make: vcProfileRules([]model.Rule{vcBadRule}, []model.Rule{{Action: "allow"}})},
 		}},
 		{Name: "t1", Key: model.TierKey{Name: "t1"}, Vars: []vcVariant{
@@ -175,6 +180,7 @@ func vcUniversePol() *vcUniverse {
 		{Name: "t2", Key: model.TierKey{Name: "t2"}, Vars: []vcVariant{
 			{Name: "o20deny", Make: vcTier(vcF(20), v3.Deny)},
 			{Name: "o10pass", Make: vcTier(vcF(10), v3.Pass)}, // ties with t1=o10deny -> name decides
+			{Name: "zero", Make: vcTier(nil, "")},             // valid but empty: no order, no default action
 		}},
 		{Name: "pA", Key: vcPolKey("pA"), Vars: []vcVariant{
 			{Name: "t1o1in", Make: vcPol{Tier: "t1", Order: vcF(1), Sel: "a == '1'", Types: []string{"ingress"}, In: []model.Rule{{Action: "allow"}}}.mk()},
@@ -188,6 +194,7 @@ func vcUniversePol() *vcUniverse {
 		{Name: "pB", Key: vcPolKey("pB"), Vars: []vcVariant{
 			{Name: "t1o1both", Make: vcPol{Tier: "t1", Order: vcF(1), Sel: "all()", Types: []string{"ingress", "egress"}, In: []model.Rule{{Action: "deny"}}, Out: []model.Rule{{Action: "allow"}}}.mk()}, // ties with pA=t1o1in
 			{Name: "t1nilB1", Make: vcPol{Tier: "t1", Sel: "b == '1'", In: []model.Rule{{Action: "deny", NotSrcSelector: "a == '2'"}}}.mk()},
+			{Name: "t1o1norules", Make: vcPol{Tier: "t1", Order: vcF(1), Sel: "all()"}.mk()}, // valid but empty: no rules, no types
 		}},
 	}}
 }
@@ -200,6 +207,7 @@ func vcUniverseSet() *vcUniverse {
 		{Name: "w1", Key: vcWEPKey(vcLocal, "w1"), Vars: []vcVariant{
 			{Name: "A", Make: vcWEP("cali1", map[string]string{"a": "1"}, []string{"p1"}, []string{"10.0.0.1/32"}, vcPort("http", "tcp", 80))},
 			{Name: "B", Make: vcWEP("cali1", map[string]string{"a": "2"}, nil, []string{"10.0.0.2/32", "10.0.0.1/32"}, vcPort("http", "udp", 80))},
+			{Name: "bare", Make: vcWEP("cali1", nil, []string{"p1"}, nil)}, // valid but empty: no labels, no addresses
 		}},
 		{Name: "r1", Key: vcWEPKey(vcRemote, "r1"), Vars: []vcVariant{
 			{Name: "A", Make: vcWEP("cali9", map[string]string{"a": "2"}, nil, []string{"10.0.0.2/32"}, vcPort("http", "tcp", 8080))}, // shares 10.0.0.2 with w1=B
@@ -212,10 +220,14 @@ func vcUniverseSet() *vcUniverse {
 			{Name: "B", Make: func() any {
 				return &model.NetworkSet{Nets: vcNets("0.0.0.0/0", "10.0.0.0/25"), Labels: uniquelabels.Make(map[string]string{"a": "2"})}
 			}},
+			{Name: "noNets", Make: func() any { // valid but empty: matches the selectors, contributes nothing
+				return &model.NetworkSet{Labels: uniquelabels.Make(map[string]string{"a": "2"})}
+			}},
 		}},
 		{Name: "p1rules", Key: vcProfRulesKey("p1"), Vars: []vcVariant{
 			{Name: "sel", Make: vcProfileRules([]model.Rule{{Action: "allow", SrcSelector: "a == '2'"}}, nil)},
 			{Name: "port", Make: vcProfileRules([]model.Rule{{Action: "allow", Protocol: vcProto("tcp"), DstPorts: []numorstring.Port{vcNamedPort("http")}}}, nil)},
+			{Name: "empty", Make: vcProfileRules(nil, nil)}, // valid but empty
 			{Name: "X", Invalid: true, Make: vcProfileRules([]model.Rule{vcBadRule}, nil)},
 		}},
 		{Name: "t1", Key: model.TierKey{Name: "t1"}, Vars: []vcVariant{
@@ -231,6 +243,7 @@ func vcUniverseSet() *vcUniverse {
 		{Name: "pB", Key: vcPolKey("pB"), Vars: []vcVariant{
 			// same selector as pA=srcA2 / p1rules=sel: one IP set shared by several rule owners
 			{Name: "dstA2", Make: vcPol{Tier: "t1", Order: vcF(2), Sel: "all()", Types: []string{"egress"}, Out: []model.Rule{{Action: "allow", DstSelector: "a == '2'"}}}.mk()},
+			{Name: "norules", Make: vcPol{Tier: "t1", Order: vcF(2), Sel: "all()"}.mk()}, // valid but empty
 		}},
 	}}
 }
